@@ -79,10 +79,9 @@ func (u *UEPolicyPart) GetPartContent() []uint8 {
 
 func (u *UEPolicyPart) MarshalBinary() ([]byte, error) {
 	buf := bytes.NewBuffer(nil)
-	// len
-	if u.Len == 0 {
-		_ = u.SetLen_byContent()
-	}
+	// len: always derived from the content, as in the enclosing instruction and sub-list encoders,
+	// so that a length left over from SetLen or from a previous parse cannot disagree with the contents
+	_ = u.SetLen_byContent()
 	if err := binary.Write(buf, binary.BigEndian, u.Len); err != nil {
 		return nil, err
 	}
